@@ -238,21 +238,23 @@ def small_sizes(rng, k, total):
     return [a, total - a] + [0] * (k - 2)
 
 
-def gen_partition_cases(rng, tier, flows, small_inputs=2, large_parts=12, small_total=4, maxT=3):
+def gen_partition_cases(rng, tier, flows, small_inputs=2, large_parts=8, small_total=4, maxT=3):
     """per flow: `small_inputs` random small inputs under ALL partitions into <= maxT ticks, and one
     large input (<= 40 items, <= 12 per side for quadratic flows) under random partitions"""
     cases = []
     thorough = tier == "thorough"
     if thorough:
-        small_inputs, large_parts, small_total, maxT = 6, 30, 5, 4
+        small_inputs, large_parts, small_total, maxT = 3, 20, 5, 4
+    maxT0 = maxT
     for flow in flows:
         spec = FLOWS[flow]
         k = len(spec["inputs"])
+        maxT = maxT0 if (k == 1 or not thorough) else 3
         for _ in range(small_inputs):
             sizes = small_sizes(rng, k, rng.range(max(1, small_total - 1), small_total))
             inputs = [gen_input(rng, kind, n) for kind, n in zip(spec["inputs"], sizes)]
             cases += all_partitions(flow, inputs, maxT)
-        for _ in range(4 if thorough else 1):
+        for _ in range(3 if thorough else 1):
             cap = 12 if spec["heavy"] else 40
             inputs = [gen_input(rng, kind, rng.range(cap // 2, cap)) for kind in spec["inputs"]]
             for _ in range(large_parts):
